@@ -26,6 +26,9 @@ def check_c17(tier, seed):
             checks_ns.sample_edges(run, edges)
             for t in targets:
                 run.replay(edges, t)
+        # (2a) the same transitions inside an ADDED volume: symbolic links whose resolution restarts the walk must stay in it
+        sedges = run.generate("nssym", 2, "nssym-d")
+        run.replay(sedges, "memfs-d-win")
         # (2b) open files and directory handles behave alike on both OS types (handle universes of C02)
         hedges = run.generate("handles", 2 if q else 3, "handles-win")
         for t in ("memfs-win", "orefafs-win"):
